@@ -32,6 +32,7 @@ PLAYBACK_FLAGS = ["-Z", "concrete-playback", "--concrete-playback=print"]
 # file stem -> (file of the scratch copy that mounts it, module path of the harness fns)
 MOUNTS = {
     "in_context": ("src/client/context.rs", "client::context::verif_in_context", "super::verif_in_context"),
+    "in_ctx_pkt": ("src/client/context.rs", "client::context::verif_in_ctx_pkt", "super::verif_in_ctx_pkt"),
     "in_packet_stream": ("src/io/packet_stream.rs", "io::packet_stream::verif_in_packet_stream", "super::verif_in_packet_stream"),
     "in_handle": ("src/client/handle.rs", "client::handle::verif_in_handle", "super::verif_in_handle"),
     "in_stream": ("src/client/stream.rs", "client::stream::verif_in_stream", "super::verif_in_stream"),
